@@ -48,6 +48,16 @@ UTF = ["K".encode(), "İ".encode(), "ſ".encode(), "Ａ".encode(), "０".encod
        b"\xf0\x8f\xbf\xbf", b"\xf0\x90\x80", b"\xf4\x90\x80\x80", b"\xf5\x80\x80\x80", b"\xf8\x88\x80\x80\x80", b"\xfc\x84\x80\x80\x80\x80", b"\xfe", b"\xff", b"\xc3\x41"]
 
 
+# hand seeds (first contact with the code), run first: (typedef, op and the arguments before the value, value)
+SEEDS = [("hex-string", "validate", b"AB:cD"), ("hex-string", "validate", b""), ("hex-string", "validate", b"AB\x00C"), ("hex-string", "validate", b"\x00AB"),
+         ("hex-string", "validate", b"AB\xff"), ("hex-string", "validate", b"\xc3\xa9"), ("hex-string", "validate", b"\xc3\x89"), ("hex-string", "validate", b"AB\x01"),
+         ("hex-string", "validate", b"\xed\xa0\x80"), ("hex-string", "validate", b"\xf4\x90\x80\x80"), ("hex-string", "validate", b"\xc0\x80"), ("hex-string", "validate", b"ab\n"),
+         ("hex-string", "unlyb", b"AB:CD"), ("hex-string", "unlyb", b"AB\x00:"), ("hex-string", "unlyb", b"\x00"), ("hex-string", "store 1", b"AB"),
+         ("hex-string", "store 1011", b"AB"), ("hex-string", "lybrt", b"AB:CD"), ("mac-address", "validate", b"00:11:22:AA:BB:Cc"), ("mac-address", "validate", b""),
+         ("uuid", "validate", b"F81D4FAE-7DEC-11D0-A765-00A0C91E6BF6"), ("phys-address", "unlyb", b"0A:0b\x00zz")]
+SEED_PAIRS = [("hex-string", b"AB", b"ab"), ("hex-string", b"AB", b"ac"), ("hex-string", b"ab", b"AB:00"), ("mac-address", b"00:11:22:AA:BB:CC", b"00:11:22:aa:bb:cc")]
+
+
 def c_lower(s):
     return bytes(b + 32 if 65 <= b <= 90 else b for b in s)
 
@@ -190,6 +200,8 @@ def run_hex(run):
     if run.get(probe)[:2] == ["err", "Schema"]:
         cx.notes.append("hex-string: types not available in this tree")
         return
+    run.diff(["%s %s%s %s" % (op.split()[0], MOD + ty, op[len(op.split()[0]):], hexs(v)) for ty, op, v in SEEDS] +
+             ["cmp %s %s %s" % (MOD + ty, hexs(a), hexs(b)) for ty, a, b in SEED_PAIRS])
     total, n_acc, n_pairs, n_lyb = 0, 0, 0, 0
     accepted, pairs = {}, {}
     for ty in TYPES:
